@@ -37,7 +37,8 @@ let rec int_of_nat (n : nat) : int =
      a : letters, lower case on stdout, upper case on stderr
      u : 3-byte characters (E2 82 AC on stdout, E2 82 AD on stderr), padded with 'x'/'X'
      b : as a, but the byte in the middle (index n/2) is 0xFF
-     B : as a, but the last byte is 0xFF *)
+     B : as a, but the last byte is 0xFF
+     T : as a, but the text ends inside a multi-byte character (E2 82) *)
 let pattern_byte (stream : int) (n : int) (kind : char) (i : int) : int =
   let base = if stream = 1 then 97 else 65 in
   match kind with
@@ -48,6 +49,7 @@ let pattern_byte (stream : int) (n : int) (kind : char) (i : int) : int =
       else (if stream = 1 then 120 else 88)
   | 'b' -> if i = n / 2 then 0xFF else base + (i mod 26)
   | 'B' -> if i = n - 1 then 0xFF else base + (i mod 26)
+  | 'T' -> if i = n - 2 || (n = 1 && i = 0) then 0xE2 else if i = n - 1 then 0x82 else base + (i mod 26)
   | _ -> failwith "pattern kind"
 
 let pattern stream n kind : z list = List.init n (fun i -> z_of_int (pattern_byte stream n kind i))
